@@ -29,7 +29,7 @@ ASSUMPTIONS = ["set members lie within base .. base+255 (what SequenceNumberSet:
 
 
 def gen(r, tier):
-    n = {"quick": 1500, "search": 6000, "thorough": 10000}[tier]
+    n = {"quick": 1500, "search": 6000, "thorough": 8000}[tier]
     nbig = {"quick": 4, "search": 8, "thorough": 24}[tier]
     cases = []
     # systematic: every kind alone, both endiannesses, several draws
@@ -75,6 +75,8 @@ def corpus():
         # D17: 70 000-byte DATA payload, length field truncated by `as u16`
         ("LE", h + ([["DA", "0100", "01020304", "06070809", "1", "-", "aa*70000"], ["HB", "10", "01020304", "06070809", "1", "1", "1"]],)),
         ("LE", h + ([["IR", "1", "1:7400:" + "00" * 16, "1:7401:" + "ef" * 16]],)),
+        # truncated length + payload bytes 0x12 (the NACK_FRAG id): the decoder panics on the tail (D17 meets D11)
+        ("BE", h + ([["IT", "1", "1", "257"], ["DA", "0111", "6d1047f9", "57e324ac", "4294967297", "-", "a0a49d.12*199993.70b2d918"], ["PD"]],)),
     ]
 
 
